@@ -95,20 +95,26 @@ func VerifC18Bundles() {
 	root := VersionKey{PackageKey: PackageKey{System: NPM, Name: "r"}, VersionType: Concrete, Version: "1.0.0"}
 	nb := vParam("nb")
 	reqs := &pb.Requirements_NPM{Dependencies: &pb.Requirements_NPM_Dependencies{}}
-	names := make([]string, nb)
+	names := make([]string, nb) // package names
+	dirs := make([]string, nb)  // directory names: the alias when the bundle is installed under one
 	vers := make([]string, nb)
 	paths := make([]string, nb)
 	parents := make([]int, nb) // index of the bundling parent, -1 = root
 	for i := 0; i < nb; i++ {
 		names[i] = c18Chars("bn"+c18N[i], 1, false)
+		dirs[i] = names[i]
+		if vParam("al"+c18N[i]) != 0 {
+			dirs[i] = c18Chars("bd"+c18N[i], 1, false)
+			vCover(true, "a bundle installed under an alias")
+		}
 		vb := vByte("bv" + c18N[i])
 		vAssume(vAnd('1' <= vb, vb <= '3'))
 		vers[i] = string([]byte{vb}) + ".0.0"
 		parents[i] = vParam("par"+c18N[i]) - 1
 		if parents[i] >= 0 {
-			paths[i] = paths[parents[i]] + "/node_modules/" + names[i]
+			paths[i] = paths[parents[i]] + "/node_modules/" + dirs[i]
 		} else {
-			paths[i] = "node_modules/" + names[i]
+			paths[i] = "node_modules/" + dirs[i]
 		}
 	}
 	// distinct paths
@@ -135,9 +141,9 @@ func VerifC18Bundles() {
 		segs := ""
 		for j := i; j >= 0; j = parents[j] {
 			if segs == "" {
-				segs = names[j]
+				segs = dirs[j]
 			} else {
-				segs = names[j] + ">" + segs
+				segs = dirs[j] + ">" + segs
 			}
 		}
 		return "r>1.0.0>" + segs
@@ -178,4 +184,86 @@ func VerifC18Bundles() {
 	}
 	_, nferr := a.Version(ctx, VersionKey{PackageKey: PackageKey{System: NPM, Name: "r>1.0.0>zz"}, VersionType: Concrete, Version: "1.0.0"})
 	vAssert(errors.Is(nferr, ErrNotFound), "an unknown bundle is not found")
+}
+
+// VerifC18Sections: a response with several dependencies spread over the four
+// sections and bundleDependencies, some of them aliased. Every entry becomes
+// exactly one requirement with its own name, range, section type and alias;
+// no entry's alias leaks into another entry.
+func VerifC18Sections() {
+	nd := vParam("nd")
+	deps := &pb.Requirements_NPM_Dependencies{}
+	type want struct {
+		name, req, alias string
+		section          int
+	}
+	var wants []want
+	for i := 0; i < nd; i++ {
+		key := c18Chars("k"+c18N[i], 1, false)
+		section := vParam("sec" + c18N[i])
+		w := want{name: key, section: section}
+		var d *pb.Requirements_NPM_Dependencies_Dependency
+		if vParam("ali"+c18N[i]) != 0 {
+			real := c18Chars("real"+c18N[i], 1, false)
+			rng := c18Chars("rng"+c18N[i], 1, false)
+			if vParam("scoped"+c18N[i]) != 0 {
+				real = "@" + real + "/" + real
+			}
+			d = &pb.Requirements_NPM_Dependencies_Dependency{Name: key, Requirement: "npm:" + real + "@" + rng}
+			w.name, w.req, w.alias = real, rng, key
+		} else {
+			rng := c18Chars("rng"+c18N[i], 1, false)
+			d = &pb.Requirements_NPM_Dependencies_Dependency{Name: key, Requirement: rng}
+			w.req = rng
+		}
+		switch section {
+		case 0:
+			deps.Dependencies = append(deps.Dependencies, d)
+		case 1:
+			deps.DevDependencies = append(deps.DevDependencies, d)
+		case 2:
+			deps.OptionalDependencies = append(deps.OptionalDependencies, d)
+		case 3:
+			deps.PeerDependencies = append(deps.PeerDependencies, d)
+		}
+		wants = append(wants, w)
+	}
+	nbd := vParam("nbd")
+	for i := 0; i < nbd; i++ {
+		n := c18Chars("bdep"+c18N[i], 1, false)
+		deps.BundleDependencies = append(deps.BundleDependencies, n)
+		wants = append(wants, want{name: n, req: "*", section: 4})
+	}
+	out := flattenNPMDeps(deps)
+	vAssert(len(out) == len(wants), "every dependency entry gives exactly one requirement")
+	if len(out) != len(wants) {
+		return
+	}
+	is := func(got RequirementVersion, w want) bool {
+		known, hasKnown := got.Type.GetAttr(dep.KnownAs)
+		scope, _ := got.Type.GetAttr(dep.Scope)
+		ok := vAnd(got.Name == w.name, got.Version == w.req)
+		ok = vAnd(ok, vAnd(hasKnown == (w.alias != ""), known == w.alias))
+		ok = vAnd(ok, got.Type.HasAttr(dep.Dev) == (w.section == 1))
+		ok = vAnd(ok, got.Type.HasAttr(dep.Opt) == (w.section == 2))
+		wantScope := ""
+		if w.section == 3 {
+			wantScope = "peer"
+		} else if w.section == 4 {
+			wantScope = "bundle"
+		}
+		return vAnd(ok, scope == wantScope)
+	}
+	// each expected requirement occurs as often in the output as in the expectation (the output is sorted)
+	for _, w := range wants {
+		c1, c2 := 0, 0
+		for _, o := range wants {
+			c1 += vIteInt(vAnd(vAnd(o.name == w.name, o.req == w.req), vAnd(o.alias == w.alias, o.section == w.section)), 1, 0)
+		}
+		for _, g := range out {
+			c2 += vIteInt(is(g, w), 1, 0)
+		}
+		vAssert(c1 == c2, "each entry becomes one requirement with its own name, range, section and alias")
+	}
+	vCover(nd > 1, "several dependencies in one response")
 }
